@@ -5700,3 +5700,76 @@ def tx2(m, run, rule='TX2.text-formats-round-trip-on-real-classes'):
                     raise AnalysisError('%s: interpreter met an unsupported construct: %s' % (key, ex))
                 fe = m.func('_exchange.export_text_data')
                 run.ob(rule, key, why is None, 'documented line / column order; the control points come back exactly' if why is None else why, 'geomdl/_exchange.py:%d in %s' % (fe.node.lineno, fe.key))
+
+
+# ====================================================================================== C16: row pivoting per order type of the column magnitudes
+def pv4(m, run, rule='PV4.pivoting-per-order-type'):
+    """PV4: linalg.matrix_pivot touches the matrix entries only through abs() and order comparisons, so what it does is fixed by the weak
+    order of the magnitudes within each column.  It is interpreted (exact rational arithmetic) on one matrix of every such order type for
+    n = 1, 2, 3 - ties and zero columns included, negative entries mixed in: the second result P is a permutation matrix (one 1 per row
+    and column, 0 elsewhere), the first is P A (row i of it is the row of A that P selects), every diagonal entry of it has the largest
+    magnitude of its column from the diagonal down, with sign=True the third result is the signature of the permutation, and A is left as
+    it was"""
+    import itertools
+    from fractions import Fraction as F
+    fi = m.func('linalg.matrix_pivot')
+
+    def weak_orders(n):
+        """all rank vectors of n items (weak orders): ranks 0..k-1 all used"""
+        out = set()
+        for r in itertools.product(range(n), repeat=n):
+            if set(r) == set(range(max(r) + 1)):
+                out.add(r)
+        return sorted(out)
+    bad, cnt = [], 0
+    for n in (1, 2, 3):
+        wo = weak_orders(n)
+        for cols in itertools.product(wo, repeat=n):
+            zc = ([None] + list(range(n)) if n > 1 else [None, 0]) if run.tier == 'thorough' else [None, sum(map(sum, cols)) % n]
+            for zero_col in zc:
+                cnt += 1
+                A = [[None] * n for _ in range(n)]
+                for j in range(n):
+                    for i in range(n):
+                        mag = F(0) if zero_col == j else F(cols[j][i] + 1) + F(j, 10)
+                        A[i][j] = -mag if (i + 2 * j + cols[j][i]) % 3 == 0 else mag
+                A0 = [list(r) for r in A]
+                sk = SK(m, {})
+                sk.exact = True
+                why = None
+                try:
+                    out = sk.call(fi, [A], {'sign': True})
+                    if not isinstance(out, tuple) or len(out) != 3:
+                        why = 'with sign=True the result is not (matrix, permutation, sign)'
+                    else:
+                        mp, P, sgn = out
+                        if A != A0:
+                            why = 'the input matrix is modified'
+                        elif not (isinstance(P, list) and len(P) == n and all(isinstance(r, list) and len(r) == n and all(x in (0, 1) for x in r) for r in P)
+                                  and all(sum(r) == 1 for r in P) and all(sum(P[i][j] for i in range(n)) == 1 for j in range(n))):
+                            why = 'the second result %r is not a permutation matrix' % (P,)
+                        else:
+                            perm = [r.index(1) for r in P]
+                            if [list(r) for r in mp] != [A0[perm[i]] for i in range(n)]:
+                                why = 'the first result %r is not P A = %r for the returned P (rows %s of A)' % (mp, [A0[perm[i]] for i in range(n)], perm)
+                            else:
+                                for j in range(n):
+                                    if any(abs(mp[i][j]) > abs(mp[j][j]) for i in range(j + 1, n)):
+                                        why = 'column %d: the diagonal entry %s is not the largest in magnitude from the diagonal down (%s)' % (j, mp[j][j], [str(mp[i][j]) for i in range(j, n)])
+                                        break
+                                inv = sum(1 for a_ in range(n) for b_ in range(a_ + 1, n) if perm[a_] > perm[b_])
+                                if why is None and sgn != (-1) ** inv:
+                                    why = 'the sign result is %r, the signature of the permutation %s is %d' % (sgn, perm, (-1) ** inv)
+                    if why is None:
+                        out2 = sk.call(fi, [A], {})
+                        if not isinstance(out2, tuple) or len(out2) != 2 or [list(r) for r in out2[0]] != [list(r) for r in out[0]] or out2[1] != out[1]:
+                            why = 'without sign the result differs from the first two results with sign=True'
+                except Violation as v:
+                    why = '%s %s' % (v.msg, v.where())
+                except Unsupported as ex:
+                    raise AnalysisError('%s: interpreter met an unsupported construct: %s' % (fi.key, ex))
+                if why:
+                    bad.append(('A = %s' % [[str(x) for x in r] for r in A0], why))
+    run.ob(rule, '%s :: %d order types of column magnitudes, n = 1..3' % (fi.key, cnt), not bad,
+           'P is a permutation matrix, the matrix returned is P A with maximal pivots, the sign is the signature of P, the input is untouched' if not bad else
+           '%s: %s   [%d of %d cases]' % (bad[0][0], bad[0][1], len(bad), cnt), 'geomdl/linalg.py:%d in %s' % (fi.node.lineno, fi.key))
